@@ -23,8 +23,8 @@ FUNCTIONS = ["strax.utils.multi_run", "Context.get_array (multi-run)", "Context.
              "Context.key_for"]
 BOUNDS = {
     "quick": "multi_run: 2..4 runs, 1..2 workers, every completion order, every set of failing runs, ignore_errors on/off; "
-             "interference: <=2 actions of another worker per call, at every access to the shared plugin registry",
-    "thorough": "2..6 runs, 1..4 workers; <=3 interferences",
+             "interference: 1 action of another worker per call, before any access to the shared plugin registry",
+    "thorough": "2..6 runs, 1..4 workers; 2 interferences (the second within 8 registry accesses of the first)",
 }
 ASSUMPTIONS = ["dict operations are atomic (GIL); interleavings inside a single dict operation are outside",
                "the other worker's actions are the two registry mutations get_iter performs (register temp merge plugin, "
@@ -42,8 +42,9 @@ def _lay(r):
 
 def _plugins(runs, fail=()):
     layouts = {r: _lay(r) for r in runs}
-    return [ctx.P_source_runs("src", "ksrc", layouts, False, fail_runs=fail),
-            ctx.P_map("m1", "src", False, kind="kk"), ctx.P_map("m2", "src", False, kind="kk", offset=7)]
+    obj = core.active()  # object arrays while a symbolic path is active (the np shim makes object arrays then)
+    return [ctx.P_source_runs("src", "ksrc", layouts, obj, fail_runs=fail),
+            ctx.P_map("m1", "src", obj, kind="kk"), ctx.P_map("m2", "src", obj, kind="kk", offset=7)]
 
 
 def _setup():
@@ -58,6 +59,8 @@ def sym_multirun(nruns, workers, ignore_errors, targets="m1"):
 
     runs = RUNS[:nruns]
     fails = [r for r in runs if bool(fresh_bool(f"fail_{r}"))]
+    if len(fails) == len(runs):
+        raise core.PathAbort("every run fails: nothing to compare")
 
     def chooser(pending):
         i = core.concretize(fresh_int(f"pick{len(ctx.StubPool.order)}", 0, len(pending) - 1))
@@ -157,7 +160,7 @@ class SpyDict(dict):
         return self._iter(dict.__iter__(self))
 
 
-def sym_interfere(budget, warm):
+def sym_interfere(budget, warm, window=8):
     """Worker A = the real get_array('0', ('m1','m2')); worker B's registry mutations may happen before any of A's
     accesses to the shared registry."""
     import strax
@@ -169,7 +172,7 @@ def sym_interfere(budget, warm):
     if warm:
         st.get_array("1", ("m1", "m2"), processor="single_thread")  # warm plugin cache
     st._plugin_class_registry = SpyDict(st._plugin_class_registry)
-    state = {"left": budget, "n": 0, "log": []}
+    state = {"left": budget, "n": 0, "log": [], "last": None}
 
     class TempB(strax.MergeOnlyPlugin):
         depends_on = ("m1", "m2")
@@ -180,9 +183,12 @@ def sym_interfere(budget, warm):
             return
         state["n"] += 1
         n = state["n"]
+        if state["last"] is not None and n - state["last"] > window:
+            return  # further actions of the other worker only shortly after its previous one (bound)
         if not bool(fresh_bool(f"act{n}")):
             return
         state["left"] -= 1
+        state["last"] = n
         SpyDict.hook = None  # B's own accesses are not interleaved further
         try:
             kind = core.concretize(fresh_int(f"kind{n}", 0, 1))
@@ -255,7 +261,8 @@ OBLIGATIONS = [
     Ob("multirun", sym_multirun, _g_multi, nat_multirun, setup=_setup, witnesses=1, max_paths=400000,
        doc="for every completion order and failure set: result == per-run results in run-id order with run_id attached; "
            "failures raise, or are omitted when errors are ignored"),
-    Ob("interfere", sym_interfere, lambda tier: [dict(budget=b, warm=w) for b in ((1, 2) if tier == "quick" else (1, 2, 3))
-                                                 for w in (False, True)], nat_interfere, setup=_setup, witnesses=1),
+    Ob("interfere", sym_interfere, lambda tier: [dict(budget=b, warm=w) for b in ((1,) if tier == "quick" else (1, 2))
+                                                 for w in (False, True)], nat_interfere, setup=_setup, witnesses=1,
+       max_paths=400000),
     Ob("twin", sym_twin, lambda tier: [dict()], None, setup=_setup, expect_cex=True),
 ]
